@@ -13,10 +13,10 @@ def assignments_to(fn, name):
         if isinstance(node, ast.Assign):
             for t in node.targets:
                 if isinstance(t, ast.Name) and t.id == name:
-                    out.append(node.value)
+                    out.append((node.lineno, node.col_offset, node.value))
         elif isinstance(node, ast.AnnAssign) and isinstance(node.target, ast.Name) and node.target.id == name and node.value:
-            out.append(node.value)
-    return out
+            out.append((node.lineno, node.col_offset, node.value))
+    return [v for _l, _c, v in sorted(out, key=lambda t: t[:2])]
 
 
 def single_def(fn, name):
